@@ -370,3 +370,14 @@ Definition rb_prank_ok (nc : list (option (list N))) (ranks : list N) : bool :=
   forallb (fun i => match rb_get_parent_node nc i with
                     | Some q => rb_rank_of ranks q <? rb_rank_of ranks i
                     | None => true end) (rb_all_ids (vlen nc)).
+
+(* ---------------------------------------------------------------------------------------------- *)
+(* family-unique entry points for the model oracle (all families share one extracted module) *)
+Definition rb_header (g : rb_graph) (tn : list N) : hdr :=
+  fold_left (fun h b => fst (add_block h b)) (rg_blocks g tn) (empty_hdr true).
+Definition rb_is_referenced (h : hdr) (id : N) (include_ptrs : bool) : bool := is_referenced h id include_ptrs.
+Definition rb_ref_count (h : hdr) (id : N) (include_ptrs : bool) : N := ref_count h id include_ptrs.
+(* DeleteUnreferencedBlocks<NiObject>(root): number of deleted blocks and remaining block count *)
+Definition rb_prune (fuel : nat) (h : hdr) (root : N) : res (N * N) :=
+  bind (delete_unreferenced fuel (fun _ => true) h root 0) (fun r => Ok (snd r, nblocks (fst r))).
+Definition rb_mk_sblock := mkRbSB.
